@@ -18,7 +18,8 @@ Classes ==
     nthChild  |-> {"absent", "one", "anb", "overflow", "garbage", "negative", "of_self_util", "zero", "object_missing_position"},
     range     |-> {"absent", "valid", "reversed", "huge"},
     has       |-> {"absent", "valid", "bad_field", "bad_stopby", "stopby_rule", "field_on_follows", "empty_object"},
-    matches   |-> {"absent", "undefined", "local_ok", "self_cycle", "mutual_cycle", "cycle_via_relation"},
+    matches   |-> {"absent", "undefined", "local_ok", "self_cycle", "mutual_cycle", "cycle_via_relation",
+                   "cycle_via_sibling_key", "cycle_all_and_any", "cycle_via_ofrule"},
     cons      |-> {"absent", "valid", "sigil_key", "lowercase_key", "wrong_type", "undefined_key"},
     transform |-> {"absent", "substring", "empty_source", "no_sigil_source", "lone_sigil_source", "multibyte_source",
                    "bad_replace_regex", "bad_case", "undefined_rewriter", "huge_index", "self_cycle", "unknown_kind",
